@@ -56,20 +56,22 @@ const (
 )
 
 type Case struct {
-	Edges      [][2]string   `json:"edges"`
-	CB         int           `json:"cb"`                    // CBGreedy | CBGreedyRandom | CBDepthFirst
-	GreedySeed int64         `json:"greedy_seed,omitempty"` // hook H1; only with CBGreedyRandom
-	Lay        int           `json:"lay"`                   // LayNS | LayLP
-	Pos        int           `json:"pos"`                   // Pos*
-	BK         *int          `json:"bk,omitempty"`          // WithBrandesKoepfLayout value (only with PosBK; nil = option not passed)
-	Rt         int           `json:"rt"`                    // Rt*
-	Thorough   *uint         `json:"thorough,omitempty"`    // nil = option not passed (default 28)
-	Virt       bool          `json:"virt,omitempty"`        // WithOutputVirtualNodes(true)
-	SzMode     int           `json:"szmode"`                // Sz*
-	Fixed      Sz            `json:"fixed,omitempty"`
-	Sizes      map[string]Sz `json:"sizes,omitempty"`
-	NS         *float64      `json:"ns,omitempty"` // nil = option not passed (default 60)
-	LS         *float64      `json:"ls,omitempty"` // nil = option not passed (default 150)
+	Edges      [][2]string           `json:"edges"`
+	CB         int                   `json:"cb"`                    // CBGreedy | CBGreedyRandom | CBDepthFirst
+	GreedySeed int64                 `json:"greedy_seed,omitempty"` // hook H1; only with CBGreedyRandom
+	Lay        int                   `json:"lay"`                   // LayNS | LayLP
+	Pos        int                   `json:"pos"`                   // Pos*
+	BK         *int                  `json:"bk,omitempty"`          // WithBrandesKoepfLayout value (only with PosBK; nil = option not passed)
+	Rt         int                   `json:"rt"`                    // Rt*
+	Thorough   *uint                 `json:"thorough,omitempty"`    // nil = option not passed (default 28)
+	Virt       bool                  `json:"virt,omitempty"`        // WithOutputVirtualNodes(true)
+	SzMode     int                   `json:"szmode"`                // Sz*
+	Fixed      Sz                    `json:"fixed,omitempty"`
+	Sizes      map[string]Sz         `json:"sizes,omitempty"`
+	OptStyle   int                   `json:"optstyle,omitempty"` // how the SAME configuration is spelled as an option list: see Options
+	lastDecoy  map[string]graph.Size // the decoy size map handed out by the last Options call (style 3), for C07
+	NS         *float64              `json:"ns,omitempty"` // nil = option not passed (default 60)
+	LS         *float64              `json:"ls,omitempty"` // nil = option not passed (default 150)
 }
 
 func (c *Case) JSON() string {
@@ -154,8 +156,83 @@ func (c *Case) SizeMap() map[string]graph.Size {
 	return m
 }
 
-// Options translates the case into the public functional options.
+// Options translates the case into the public functional options. Every option writes its own field of the configuration,
+// so the same configuration can be spelled in several ways; OptStyle picks one (the result must not depend on it):
+//
+//	0 canonical: defaults are left out, fixed order
+//	1 defaults spelled out (WithCycleBreaking(Greedy), WithLayering(NetworkSimplex), WithOrdering(WMedian), WithOutputVirtualNodes(false) ...)
+//	2 the canonical list in reverse order (e.g. WithNodeSize before WithNodeFixedSize: the map still wins, as documented)
+//	3 style 1 preceded by a decoy - a different value - for every setting that is then set explicitly (the last one wins);
+//	  for size maps the decoy is a sub-map with the same values (DecoySizes), which makes no assumption about repeated WithNodeSize
 func (c *Case) Options(sizes map[string]graph.Size) []autog.Option {
+	o := c.canonicalOptions(sizes)
+	switch c.OptStyle {
+	case 1:
+		o = append(c.explicitDefaults(), o...)
+	case 2:
+		for i, j := 0, len(o)-1; i < j; i, j = i+1, j-1 {
+			o[i], o[j] = o[j], o[i]
+		}
+	case 3:
+		o = append(c.explicitDefaults(), o...)
+		o = append(c.decoys(), o...)
+		if (c.SzMode == SzPerNode || c.SzMode == SzFixedPerNode) && sizes != nil {
+			c.lastDecoy = DecoySizes(sizes)
+			o = append([]autog.Option{autog.WithNodeSize(c.lastDecoy)}, o...)
+		}
+	}
+	return o
+}
+
+// explicitDefaults: the options the canonical spelling leaves out because they are the defaults
+func (c *Case) explicitDefaults() []autog.Option {
+	var o []autog.Option
+	if c.CB == CBGreedy {
+		o = append(o, autog.WithCycleBreaking(autog.CycleBreakingGreedy))
+	}
+	if c.Lay == LayNS {
+		o = append(o, autog.WithLayering(autog.LayeringNetworkSimplex))
+	}
+	o = append(o, autog.WithOrdering(autog.OrderingWMedian))
+	if !c.Virt {
+		o = append(o, autog.WithOutputVirtualNodes(false))
+	}
+	return o
+}
+
+// decoys: other values for settings that explicitDefaults + canonicalOptions then set again
+func (c *Case) decoys() []autog.Option {
+	o := []autog.Option{
+		autog.WithCycleBreaking([]phase1.Alg{autog.CycleBreakingDepthFirst, autog.CycleBreakingDepthFirst, autog.CycleBreakingGreedy}[c.CB]),
+		autog.WithOrdering(autog.OrderingNoop),
+		autog.WithPositioning(autog.PositioningNoop),
+		autog.WithEdgeRouting(autog.EdgeRoutingNoop),
+		autog.WithOutputVirtualNodes(!c.Virt),
+	}
+	if c.Lay == LayNS {
+		o = append(o, autog.WithLayering(autog.LayeringLongestPath))
+	} else {
+		o = append(o, autog.WithLayering(autog.LayeringNetworkSimplex))
+	}
+	if c.Thorough != nil {
+		o = append(o, autog.WithNetworkSimplexThoroughness(*c.Thorough+5))
+	}
+	if c.Pos == PosBK && c.BK != nil {
+		o = append(o, autog.WithBrandesKoepfLayout((*c.BK+1)%4))
+	}
+	if c.SzMode == SzFixed || c.SzMode == SzFixedPerNode {
+		o = append(o, autog.WithNodeFixedSize(c.Fixed.H+3, c.Fixed.W+7))
+	}
+	if c.NS != nil {
+		o = append(o, autog.WithNodeSpacing(*c.NS+12.5))
+	}
+	if c.LS != nil {
+		o = append(o, autog.WithLayerSpacing(*c.LS+33))
+	}
+	return o
+}
+
+func (c *Case) canonicalOptions(sizes map[string]graph.Size) []autog.Option {
 	var o []autog.Option
 	switch c.CB {
 	case CBGreedy:
@@ -238,6 +315,41 @@ func (c *Case) RunWith(src graph.Source, sizes map[string]graph.Size, extra ...a
 	opts := append(c.Options(sizes), extra...)
 	l = autog.Layout(src, opts...)
 	return l, nil
+}
+
+// RunOpts calls autog.Layout with exactly the given option slice (the caller keeps ownership of the slice: C07 and C15
+// look at it afterwards). A panic is recovered and returned.
+func (c *Case) RunOpts(src graph.Source, opts []autog.Option) (l graph.Layout, perr any) {
+	defer func() {
+		if r := recover(); r != nil {
+			perr = r
+		}
+	}()
+	if c.CB == CBGreedyRandom {
+		phase1.VerifGreedySeed.Store(nonZeroSeed(c.GreedySeed))
+		defer phase1.VerifGreedySeed.Store(0)
+	}
+	l = autog.Layout(src, opts...)
+	return l, nil
+}
+
+// DecoySizes: the map passed by an additional, EARLIER WithNodeSize option in option style 3. It lists every other key of
+// the real map with the real value, so the configuration is the same whether a later WithNodeSize replaces an earlier one
+// (as in the pinned code) or would be merged with it - no assumption about that is made. What the decoy is for: it is a
+// second caller-owned map, and C07 checks that it comes back unmodified.
+func DecoySizes(sizes map[string]graph.Size) map[string]graph.Size {
+	keys := make([]string, 0, len(sizes))
+	for k := range sizes {
+		keys = append(keys, k)
+	}
+	sort.Strings(keys)
+	d := map[string]graph.Size{}
+	for i, k := range keys {
+		if i%2 == 0 {
+			d[k] = sizes[k]
+		}
+	}
+	return d
 }
 
 func nonZeroSeed(s int64) int64 {
